@@ -127,7 +127,8 @@ func runC19(c *eng.Ctx, tier string) {
 		if l.Holds(st, keyStore) && !l.HoldsReal(st, keyStore) {
 			continue
 		}
-		c.Check(lookupFn != nil && eng.Outer(a.Fn) == lookupFn, "R-C19-6", a.Fn, a.In.Pos(), "entry (re)placed after publication: "+eng.InstrStr(a.In), "after construction a whole entry is installed only by the lookup of a new name; polls update the value of the existing entry in place (replacing the entry would silently drop its Declared flag and access stamp)", "in "+eng.FName(a.Fn))
+		inLookup := lookupFn != nil && (eng.Outer(a.Fn) == lookupFn || eng.Outer(eng.HelperRoot(eng.Outer(a.Fn), func(x *ssa.Function) bool { return eng.Outer(x) == lookupFn })) == lookupFn)
+		c.Check(inLookup, "R-C19-6", a.Fn, a.In.Pos(), "entry (re)placed after publication: "+eng.InstrStr(a.In), "after construction a whole entry is installed only by the lookup of a new name; polls update the value of the existing entry in place (replacing the entry would silently drop its Declared flag and access stamp)", "in "+eng.FName(a.Fn))
 	}
 	// the nil marker is recorded only in poll, on a branch depending on the expired flag
 	var flagField *eng.FieldRef
